@@ -225,7 +225,7 @@ def edited_case(text, unit_name, pick, op, origin):
     if not tidx:
         raise F.NotApplicable('target is not part of the recorded tree')
     j = pick % len(cands)
-    touched, own = [], []
+    touched, own, removed = [], [], 0
     kind, target_text = type(target).__name__, (target.source.string or '')[:200]
     for step in op.split('_'):
         if step == 'rename':
@@ -244,10 +244,13 @@ def edited_case(text, unit_name, pick, op, origin):
                 raise F.NotApplicable('candidate positions changed')
             apply_edit(routine, cur[j], step)
             touched.append(tidx)
+            if step == 'remove':
+                removed = tidx
     mark_units(sf, routine)
     out = sf.to_fortran(conservative=True)
     nodes, _flat = record_tree(sf.ir, lines, source_ids)
     del keep
+    own = [x for x in own if x != removed]        # a removed node has no expressions any more
     case = {'orig': [T._ascii(l) for l in lines], 'onodes': onodes, 'nodes': nodes, 'touched': sorted(set(touched)), 'own': own,
             'out': [T._ascii(l) for l in out.split('\n')], 'l0': 0, 'l1': 0}
     return case, {'origin': origin, 'op': op, 'kind': kind, 'unit': unit_name, 'pick': pick, 'text': text, 'target_text': target_text}
@@ -334,7 +337,7 @@ def spec_rename(prog, name='i'):
     return p2
 
 
-def make_transform(table):
+def make_transform(table, flags=None):
     def transform(text, prog, workdir):
         from loki import ir, FindNodes
         orig_prog, k, op, before = table[id(prog)]
@@ -350,8 +353,18 @@ def make_transform(table):
             if target.source is None or not target.source.string.strip().endswith(before):
                 raise MachineryError(f'C03: statement correspondence lost: IR has {target.source.string if target.source else None!r}, spec has {before!r}')
             apply_edit(routine, target, step)
+        if flags is not None and any(len(o.values) != len(o.bodies) for o in FindNodes(ir.MultiConditional).visit(routine.body)):
+            # recorded for the key only: the plain Transformer dropped the emptied body of a CASE branch but kept its
+            # selector, so the following bodies moved up one branch (a defect of the tree rewriting, not of the backend)
+            flags[id(prog)] = 'case-branch-shifted'
         mark_units(sf, routine)
-        return [('kmod.f90', sf.to_fortran(conservative=True))]
+        out = sf.to_fortran(conservative=True)
+        if flags is not None and 'remove' in op.split('_') and before:
+            count = lambda t: sum(1 for l in t.split('\n') if l.strip() == before)
+            if count(out) >= count(otext):
+                # recorded for the key only: the removed statement is printed nevertheless (its parent stayed VALID)
+                flags[id(prog)] = 'removed-still-printed'
+        return [('kmod.f90', out)]
     return transform
 
 
@@ -536,16 +549,30 @@ def run(ctx):
                 table[id(p2)] = (prog, k, h, before)
                 bcases.append((p2, inputs))
     if bcases:
-        transform = make_transform(table)
+        flags = {}
+        transform = make_transform(table, flags)
         results, fails, legal = F.behaviour_check(ctx, 'conservative', bcases, transform)
         # replay payloads need the edit description
-        F.report_failures(ctx, 'conservative', bcases, results, fails, None)
+        # failures of programs in which the Transformer shifted CASE branches are reported apart from the others, so that one
+        # class cannot hide the other behind a common failure signature
+        shifted = [f for f in fails if flags.get(id(bcases[f[0]][0])) == 'case-branch-shifted']
+        printed = [f for f in fails if flags.get(id(bcases[f[0]][0])) == 'removed-still-printed']
+        F.report_failures(ctx, 'conservative', bcases, results, printed, None)
+        groups0 = {k + ':removed-still-printed': v for k, v in ctx.cover.get('conservative_failure_groups', {}).items()} if printed else {}
+        F.report_failures(ctx, 'conservative', bcases, results, [f for f in fails if f not in shifted and f not in printed], None)
+        groups = dict(ctx.cover.get('conservative_failure_groups', {}))
+        F.report_failures(ctx, 'conservative', bcases, results, shifted, None)
+        groups.update({k + ':case-branch-shifted': v for k, v in ctx.cover.get('conservative_failure_groups', {}).items()} if shifted else {})
+        groups.update(groups0)
+        ctx.cover['conservative_failure_groups'] = groups
         for v in ctx.violations:
             if isinstance(v.case, dict) and 'prog' in v.case and id(v.case['prog']) in table:
                 o, k, op, before = table[id(v.case['prog'])]
                 v.case['c03'] = {'orig': o, 'k': k, 'op': op, 'before': before}
                 # stable key: drop the statement kinds of the (unshrunk) program, keep the failure signature
                 v.key = v.key.rsplit(':', 1)[0].replace('conservative:', f'conservative:{op}:', 1)
+                if flags.get(id(v.case['prog'])):
+                    v.key += ':' + flags[id(v.case['prog'])]
         ctx.cover['behaviour_programs_with_legal_inputs'] = len(legal)
     ctx.assumptions += [
         'sources are read with frontend-store-source (FP frontend); line numbers refer to the text as given',
@@ -556,7 +583,8 @@ def run(ctx):
         'histories of two edits: a replacement / removal and ONE SubstituteExpressions pass renaming a loop variable in specification '
         'and body (changes the own expressions of loop headers / conditions), in both orders, and the rename alone; ChildrenOnly / '
         'StaleHeader use the set of original nodes whose own image mentions the variable',
-        'ValidEmitted only considers nodes whose recorded text is exactly their original lines (inline comments share a line)',
+        'ValidEmitted only considers nodes whose recorded text is exactly their original lines (inline comments share a line) and whose '
+        'lines occur only once in the file',
         'behaviour: MiniFortran programs (lib_fm), the edit (right-hand side -> literal, statement -> removed) is applied to the spec '
         'program as well; the conservative output must behave like the edited program (Trace_FMachine)',
     ]
